@@ -9,6 +9,7 @@ import (
 	"io"
 	"os"
 	"path/filepath"
+	"runtime/debug"
 
 	"github.com/hydraide/hydraide/app/core/hydra/swamp/beacon"
 	"github.com/hydraide/hydraide/app/core/hydra/swamp/chronicler"
@@ -252,6 +253,9 @@ func (r *Run) peek() (int, []int) {
 		return err
 	})
 	if err != nil {
+		// a garbage block header makes the reader allocate up to 4 GiB; give it back to the OS so the next
+		// huge allocation gets fresh zero pages instead of clearing a reused span (harness speed only)
+		debug.FreeOSMemory()
 		if len(err.Error()) > 6 && err.Error()[:6] == "panic:" {
 			return 2, m
 		}
@@ -598,7 +602,11 @@ func (x *Exec) writeHistory(h *History, evs []Event) {
 }
 
 func (x *Exec) execute(h *History, in *Interner, record bool, faults []Fault, steps []Step) *Run {
-	r := newRun(h, in, x.freshDir(), record, faults)
+	return x.executeDir(h, in, x.freshDir(), record, faults, steps)
+}
+
+func (x *Exec) executeDir(h *History, in *Interner, dir string, record bool, faults []Fault, steps []Step) *Run {
+	r := newRun(h, in, dir, record, faults)
 	cur = r
 	verifhook.SetFileOp(hook)
 	verifhook.SetTrace(traceHook)
